@@ -5377,6 +5377,20 @@ int32_t matrixSslEncodeClientHello(ssl_t *ssl, sslBuf_t *out,
 #  endif /* USE_ECC_CIPHER_SUITE */
 
 #  ifdef USE_STATELESS_SESSION_TICKETS
+    if (ssl->sid &&
+        ssl->sid->sessionTicketState != SESS_TICKET_STATE_USING_TICKET &&
+#   ifdef USE_EAP_FAST
+        ssl->sid->sessionTicketState != SESS_TICKET_STATE_EAP_FAST &&
+#   endif
+        ssl->sid->sessionTicketState != SESS_TICKET_STATE_INIT)
+    {
+        /* The other states describe the ticket negotiation of ONE handshake.
+           One left in the session id object by an earlier connection (a
+           server that acknowledged the extension and never sent a ticket)
+           must not admit a NewSessionTicket in this one; the extension
+           writer below sets the state this hello justifies. */
+        ssl->sid->sessionTicketState = SESS_TICKET_STATE_INIT;
+    }
     useTicket = 0;
     if (options && options->ticketResumption == 1)
     {
@@ -5877,19 +5891,6 @@ int32_t matrixSslEncodeClientHello(ssl_t *ssl, sslBuf_t *out,
                 matrixsslUpdateStat(ssl, RESUMPTIONS_STAT, 1);
 #   endif
             }
-        }
-        else if (ssl->sid &&
-            ssl->sid->sessionTicketState != SESS_TICKET_STATE_USING_TICKET &&
-#   ifdef USE_EAP_FAST
-            ssl->sid->sessionTicketState != SESS_TICKET_STATE_EAP_FAST &&
-#   endif
-            ssl->sid->sessionTicketState != SESS_TICKET_STATE_INIT)
-        {
-            /* This hello does not ask for a ticket. A negotiation state left
-               in the session id object by an earlier connection (a server
-               that acknowledged the extension and never sent a ticket) must
-               not admit a NewSessionTicket in this one. */
-            ssl->sid->sessionTicketState = SESS_TICKET_STATE_INIT;
         }
 #  endif /* USE_STATELESS_SESSION_TICKETS       */
 
